@@ -1050,7 +1050,7 @@ pub fn names_case(inp: &Input, cfg: &Cfg, gc_runs: u32) -> Value {
         lm.push(json!({"known": known, "pairs": pairs}));
     }
     json!({
-        "id": format!("{}~gc{}{}", inp.id, gc_runs, if cfg.synth { "~synth" } else { "" }), "source": inp.source, "outcome": rt.outcome, "synth": cfg.synth,
+        "id": format!("{}~gc{}{}{}", inp.id, gc_runs, if cfg.synth { "~synth" } else { "" }, if cfg.producers { "" } else { "~noprod" }), "source": inp.source, "outcome": rt.outcome, "synth": cfg.synth,
         "in_names": names_json(&inm), "out_names": names_json(&outm), "out_names_ok": outm.name_section_ok || outm.names.is_empty(),
         "sigma": rt.sigma, "lm": lm, "nparams": inm.funcs.iter().map(|f| f.nparams).collect::<Vec<_>>(),
     })
@@ -1402,8 +1402,10 @@ pub fn custom_name_inputs() -> Vec<Input> {
         out.extend(body);
         out
     }
-    let base = wat::parse_str("(module (func (export \"f\") (result i32) i32.const 7))").unwrap();
-    // header | type | function | export | code
+    let mut out = vec![];
+    for (bk, wat_src) in ["(module (func (export \"f\") (result i32) i32.const 7))", "(module (memory (export \"m\") 1))"].iter().enumerate() {
+    let base = wat::parse_str(wat_src).unwrap();
+    // header | type | function | export | code     (or, without code: header | memory | export)
     let mut secs: Vec<Vec<u8>> = vec![];
     let mut i = 8;
     while i < base.len() {
@@ -1423,7 +1425,6 @@ pub fn custom_name_inputs() -> Vec<Input> {
         i += len;
         secs.push(base[start..i].to_vec());
     }
-    let mut out = vec![];
     let long = |n: usize| -> Vec<u8> { (0..n).map(|k| b'a' + (k % 26) as u8).collect() };
     let shapes: Vec<(&str, Vec<u8>, usize)> = vec![
         ("n127", long(127), 1), ("n128", long(128), 1), ("n300", long(300), 1),
@@ -1443,8 +1444,10 @@ pub fn custom_name_inputs() -> Vec<Input> {
                 b.extend(custom(name, *nlb, b"payload"));
                 b.extend(custom(name, *nlb, b""));
             }
-            out.push(Input { id: format!("customname-{}-{}", tag, at), bytes: b, source: format!("customname:{}:{}", tag, at) });
+            let t = if bk == 0 { tag.to_string() } else { format!("nocode-{}", tag) };
+            out.push(Input { id: format!("customname-{}-{}", t, at), bytes: b, source: format!("customname:{}:{}", t, at) });
         }
+    }
     }
     out
 }
@@ -1611,6 +1614,8 @@ pub fn ref_func_export_inputs() -> Vec<Input> {
     let wats = [
         "(module (func $f (export \"f\")) (func (export \"g\") ref.func $f drop))",
         "(module (func $f (export \"f\") (param i32) (result i32) local.get 0) (func $h) (func (export \"g\") ref.func $f drop call $h))",
+        // a function declared by an unreferenced passive segment only: the GC pass sweeps the segment (the recorded finding)
+        "(module (func $f) (func (export \"g\") ref.func $f drop) (func (export \"h\")) (elem func $f))",
     ];
     wats.iter().enumerate().map(|(k, w)| Input { id: format!("reffuncexp-{}", k), bytes: wat::parse_str(w).unwrap(), source: format!("reffuncexp:{}", k) }).collect()
 }
@@ -2200,6 +2205,11 @@ pub fn duplicate_import_inputs(seed: u64, n: u64) -> Vec<Input> {
         if global_first {
             d.globals.push(GlobalD { ty: T::I32, mutable: false, imported: true, init: None });
             d.imports.push(Imp { module: "env".into(), field: "f".into(), kind: ImpKind::Global(0) });
+            if k % 2 == 0 {
+                // a second global import of the same names, another type and mutability
+                d.globals.push(GlobalD { ty: T::I64, mutable: true, imported: true, init: None });
+                d.imports.push(Imp { module: "env".into(), field: "f".into(), kind: ImpKind::Global(1) });
+            }
         }
         for _ in 0..nimp {
             let ty = r.gen_range(0..2);
@@ -2222,6 +2232,10 @@ pub fn duplicate_import_inputs(seed: u64, n: u64) -> Vec<Input> {
         if global_first {
             ins.push(I::GlobalGet(0));
             ins.push(I::Drop);
+            if d.globals.len() > 1 {
+                ins.push(I::GlobalGet(1));
+                ins.push(I::Drop);
+            }
         }
         ins.push(I::End);
         d.bodies.push(BodyD { locals: vec![], instrs: ins });
